@@ -174,4 +174,105 @@ theorem clashFree_perm {regs regs' : List Registration} (p : regs.Perm regs') :
   · rintro ⟨_, h⟩
     exact ⟨by simp, (p.pairwise_iff (fun h => Apart.symm h)).mpr h⟩
 
+/-! ## `ProtocolSet` lookups -/
+
+/-- Registrations that claim a common name are the same registration (accepted registrations are pairwise apart). -/
+theorem apart_unique {regs : List Registration} (hp : regs.Pairwise Apart) {r r' : Registration}
+    (hr : r ∈ regs) (hr' : r' ∈ regs) {x : String} (hx : x ∈ r.claims) (hx' : x ∈ r'.claims) : r = r' := by
+  induction regs with
+  | nil => cases hr
+  | cons a l ih =>
+    rw [List.pairwise_cons] at hp
+    rcases List.mem_cons.mp hr with h1 | h1
+    · rcases List.mem_cons.mp hr' with h2 | h2
+      · rw [h1, h2]
+      · subst h1
+        exact (hp.1 r' h2 x hx hx').elim
+    · rcases List.mem_cons.mp hr' with h2 | h2
+      · subst h2
+        exact (hp.1 r h1 x hx' hx).elim
+      · exact ih hp.2 h1 h2
+
+/-- The name `ProtocolSet` looks a negotiated name up under: the main name of the registration that claims it. -/
+theorem fallbackOwner_getD {regs : List Registration} (hp : regs.Pairwise Apart) {r : Registration} (hr : r ∈ regs)
+    {x : String} (hx : x ∈ r.claims) : (fallbackOwner regs x).getD x = r.name := by
+  unfold fallbackOwner
+  cases hf : regs.find? (fun r => r.fallback.contains x) with
+  | some r1 =>
+    have hm := List.mem_of_find?_eq_some hf
+    have hc := List.find?_some hf
+    have hx1 : x ∈ r1.claims := by
+      simp only [Registration.claims, List.mem_cons]
+      exact Or.inr (by simpa using hc)
+    have := apart_unique hp hm hr hx1 hx
+    simp [this]
+  | none =>
+    have hn := List.find?_eq_none.mp hf r hr
+    simp only [Registration.claims, List.mem_cons] at hx
+    rcases hx with rfl | hx
+    · simp
+    · exact absurd (by simpa using hx) hn
+
+/-- The registration `ProtocolSet` finds for a negotiated name is the one that claims it. -/
+theorem find_by_claim {regs : List Registration} (hp : regs.Pairwise Apart) {r : Registration} (hr : r ∈ regs)
+    {x : String} (hx : x ∈ r.claims) :
+    regs.find? (fun r' => r'.name = (fallbackOwner regs x).getD x) = some r := by
+  rw [fallbackOwner_getD hp hr hx]
+  cases hf : regs.find? (fun r' => r'.name = r.name) with
+  | none =>
+    have := List.find?_eq_none.mp hf r hr
+    simp at this
+  | some r2 =>
+    have hm := List.mem_of_find?_eq_some hf
+    have hc : r2.name = r.name := by simpa using List.find?_some hf
+    have h2 : r.name ∈ r2.claims := by simp [Registration.claims, hc]
+    have h1 : r.name ∈ r.claims := by simp [Registration.claims]
+    rw [apart_unique hp hm hr h2 h1]
+
+/-- Every name a registration claims — its main name and each of its fallback names — resolves to THAT registration's
+codec and keep-alive setting. -/
+theorem protocolSet_of_claim {regs : List Registration} (h : registerAll [] regs ≠ none) {r : Registration}
+    (hr : r ∈ regs) {x : String} (hx : x ∈ r.claims) :
+    protocolCodec regs x = some r.codec ∧ nameKeepAlive regs x = some r.keepAlive := by
+  have hp := ((registerAll_ok_iff [] regs).mp h).2
+  unfold protocolCodec nameKeepAlive
+  rw [find_by_claim hp hr hx]
+  exact ⟨rfl, rfl⟩
+
+/-! ## Builders -/
+
+theorem kadBuild_append (sets : List KadSet) (s : KadSet) : kadBuild (sets ++ [s]) = s.apply (kadBuild sets) := by
+  simp [kadBuild, List.foldl_append]
+
+theorem notes_kad_mem (b : Built) {k : KadCfg} (h : k ∈ b.kad) : Note.kad (kadBuild k.sets) ∈ notes b := by
+  unfold notes
+  simp only [List.mem_append, List.mem_map]
+  exact Or.inl (Or.inl (Or.inr ⟨k, h, rfl⟩))
+
+theorem notes_rr_mem (b : Built) {p : RrCfg} (h : p ∈ b.rr) : Note.rr p.name p.timeoutMs p.maxInbound ∈ notes b := by
+  unfold notes
+  simp only [List.mem_append, List.mem_map]
+  exact Or.inl (Or.inl (Or.inl (Or.inl (Or.inr ⟨p, h, rfl⟩))))
+
+theorem notes_notif_mem (b : Built) {p : NotifCfg} (h : p ∈ b.notif) :
+    Note.notif p.name (p.sync.getD Consts.NODE_NOTIF_SYNC_CHANNEL_SIZE) (p.async.getD Consts.NODE_NOTIF_ASYNC_CHANNEL_SIZE)
+      (p.mode == 'a') (p.dial.getD true) p.handshake ∈ notes b := by
+  unfold notes
+  simp only [List.mem_append, List.mem_map]
+  exact Or.inl (Or.inl (Or.inl (Or.inl (Or.inl ⟨p, h, rfl⟩))))
+
+theorem notes_bitswap_mem (b : Built) (h : b.bitswap = true) : Note.bitswap ∈ notes b := by
+  unfold notes
+  simp [h]
+
+theorem bitswap_mem_registrations (b : Built) (h : b.bitswap = true) :
+    (⟨bitswapName, [], .varint (some Consts.BITSWAP_MAX_MESSAGE_SIZE), b.keepAliveMs, true⟩ : Registration) ∈
+      registrations b := by
+  unfold registrations
+  simp [h]
+
+theorem tcpHeld_append (b : Built) (sets : List TcpSet) (s : TcpSet) (hb : b.tcpSets = sets ++ [s]) :
+    tcpHeld b = { s.apply (sets.foldl TcpSet.apply {}) with maxParallelDials := b.maxParallelDials } := by
+  simp [tcpHeld, hb, List.foldl_append]
+
 end Litep2pVerif.Node
